@@ -112,7 +112,7 @@ def one_case(args):
 def run(res):
     exe = build.fastpasta("rel")
     wd = scratch("c08")
-    n = 250 if res.tier == "quick" else 5000
+    n = 250 if res.tier == "quick" else 12000
     for o in pmap(one_case, [(exe, wd, res.seed, c, res.tier) for c in range(n)]):
         res.evaluations += 1
         res.count("packets_compared", o["events"])
